@@ -61,7 +61,7 @@ fn exec_cmd<K: track::KeyT>(a: &Args) -> exec::Stats {
             + cfg.get("a").and_then(|v| v.as_u64()).unwrap_or(1) + cfg.get("b").and_then(|v| v.as_u64()).unwrap_or(1)),
     };
     let env = sut::Env { hasher: a.get("hasher").unwrap_or("std").to_string(), kh_table: Rc::new(table), default_ctor: a.has("default-ctor") };
-    let fl = exec::Flags { audit: a.has("audit"), tok: a.has("tok"), ro: !a.has("no-ro"), drop_ev: a.has("drop"), clone_ev: a.has("clone"), shuffle: a.num("shuffle", 0), faults: a.has("faults"), light: a.has("light") };
+    let fl = exec::Flags { audit: a.has("audit"), tok: a.has("tok"), ro: !a.has("no-ro"), drop_ev: a.has("drop"), clone_ev: a.has("clone"), shuffle: a.num("shuffle", 0), faults: a.has("faults"), light: a.has("light"), progress: a.has("progress") };
     let random = a.get("random").map(|s| {
         let p: Vec<u64> = s.split(',').map(|x| x.parse().unwrap()).collect();
         (p[0] as usize, p[1] as usize, p[2])
